@@ -38,6 +38,9 @@ func init() {
 		"(*strings.Builder).String":      extBuilderString,
 		"(*archive/zip.File).Open":    extZipFileOpen,
 		"io.ReadAll":                  extReadAll,
+		"image/png.Decode":            extNonNilOnSuccess,
+		"image/jpeg.Decode":           extNonNilOnSuccess,
+		"image/gif.Decode":            extNonNilOnSuccess,
 		"os.MkdirAll":                 extIOErr,
 		"os.Create":                   extOpenResource,
 		"archive/zip.NewWriter":       extZipNewWriter,
